@@ -53,6 +53,18 @@ Proof. split; reflexivity. Qed.
 Lemma gen_psql_commit_frozen : gen_psql_commit = "tx.Commit()".
 Proof. reflexivity. Qed.
 
+(** psqlKV.mutate as it is in the source: default transaction options, a
+    SELECT that takes no row lock.  Under PostgreSQL's READ COMMITTED this is
+    the shape of Kv/AtomicPg.v with [select_locks = false], which loses
+    updates ([pg_rc_lost_update]); open finding of C06.  A repair (SELECT ...
+    FOR UPDATE, or a stricter isolation level with a retry) changes these
+    strings and this lemma has to follow. *)
+Lemma gen_psql_mutate_shape :
+  gen_psql_mutate_begin = "b.db.Begin()" /\
+  gen_psql_mutate_select = "select v from %s where k=$1" /\
+  gen_psql_mutate_select_locks_row = false.
+Proof. repeat split. Qed.
+
 Local Close Scope string_scope.
 
 (** ** The theorems for the statement table generated from sqlite3_kv.go
@@ -132,3 +144,13 @@ Lemma gen_sql_snapshot_stable bprog db0 cfg i k f v todo :
   qreachable gen_sqlite_methods (qinit bprog db0) cfg ->
   qths cfg i = QRead k f v todo -> exists c, lookup k (qdb cfg) = Some (c, v).
 Proof. rewrite gen_sqlite_methods_frozen. exact (sql_snapshot_stable bprog db0 cfg i k f v todo). Qed.
+
+Lemma gen_sql_tx_excludes_writes cfg cfg' j :
+  qstep gen_sqlite_methods cfg cfg' -> in_tx (qths cfg j) ->
+  qdb cfg' = qdb cfg \/
+  (exists k f img todo, qths cfg j = QWritten k f img todo /\ qdb cfg' = img).
+Proof. rewrite gen_sqlite_methods_frozen. exact (sql_tx_excludes_writes cfg cfg' j). Qed.
+
+Lemma gen_sql_reserved_unique bprog db0 cfg :
+  qreachable gen_sqlite_methods (qinit bprog db0) cfg -> reserved_unique cfg.
+Proof. rewrite gen_sqlite_methods_frozen. exact (sql_reserved_unique bprog db0 cfg). Qed.
